@@ -1,11 +1,11 @@
 #!/bin/bash
-# usage: adopt_seed.sh <scratch id, e.g. C01c> <property id> <k>   -- confirms /tmp/seeded_out/<scratch>/m1.* in /tmp/wt/<scratch>, stores it as seeded/<property>-m<k>
-set -e
-S="$1"; P="$2"; K="$3"
-cd /verif
-python3 harness/confirm_seed.py "$S" 1 2>&1 | tail -1
-[ -d "seeded/$S-m1" ] || exit 1
-rm -rf "seeded/$P-m$K"; mv "seeded/$S-m1" "seeded/$P-m$K"
-sed -i "s/$S-m1/$P-m$K/g; s/\"breaks_property\": \"$S\"/\"breaks_property\": \"$P\"/; s#./check $S#./check $P#" "seeded/$P-m$K/meta.json"
-git -C /repo worktree remove --force "/tmp/wt/$S" 2>/dev/null || true
-echo "stored seeded/$P-m$K"
+# usage: adopt_seed.sh <scratch id, e.g. C05k> <k> : confirm a sub-agent's mutation in its worktree (/tmp/wt/<scratch id>) and store it as
+# seeded/<Cxx>-m<next free index>/ (patch.diff, demo.py, notes.md, meta.json)
+S="$1"; K="$2"; P="${S:0:3}"
+git -C /tmp/wt/$S checkout -q --detach HEAD 2>/dev/null; git -C /tmp/wt/$S checkout -q -- . 
+python3 /verif/harness/confirm_seed.py "$S" "$K" | tail -3 || { echo "not confirmed"; exit 1; }
+[ -d /verif/seeded/$S-m$K ] || exit 1
+N=1; while [ -d /verif/seeded/$P-m$N ]; do N=$((N+1)); done
+mv /verif/seeded/$S-m$K /verif/seeded/$P-m$N
+sed -i "s/$S-m$K/$P-m$N/g; s/\"breaks_property\": \"$S\"/\"breaks_property\": \"$P\"/; s#check $S #check $P #" /verif/seeded/$P-m$N/meta.json
+echo "adopted as $P-m$N"
